@@ -1,19 +1,30 @@
 #!/usr/bin/env python3
 """Regression over the stored seeded changes: each must still be caught by the check recorded as catching it.
-usage: mk/seeded_regress.py [name-prefix...]   -> prints one line per change; exit 1 if any is no longer caught."""
-import os, sys, json, glob, re, subprocess
+usage: mk/seeded_regress.py [-jN] [name-prefix...]   -> prints one line per change; exit 1 if any is no longer caught."""
+import os, sys, json, glob, re, subprocess, concurrent.futures
 V = os.path.dirname(os.path.dirname(os.path.abspath(__file__)))
-bad = 0
-for mp in sorted(glob.glob(os.path.join(V, "seeded", "*", "meta.json"))):
+args = sys.argv[1:]
+jobs = 1
+if args and args[0].startswith("-j"):
+    jobs = int(args[0][2:] or 2); args = args[1:]
+
+
+def one(mp):
     d = json.load(open(mp)); name = d["name"]
-    if sys.argv[1:] and not any(name.startswith(p) for p in sys.argv[1:]):
-        continue
     owner = d["breaks_property"] if d["breaks_property"] in d["caught_by"] else sorted(d["caught_by"])[0]
     p = subprocess.run([os.path.join(V, "mk", "try_patch.sh"), os.path.join(os.path.dirname(mp), "patch.diff"), owner], capture_output=True, text=True, env=dict(os.environ, LINES_MAX="2"))
     sigs = re.findall(r"^---- C\d+ violated: (\S+)", p.stdout, re.M)
     harness = "HARNESS" in p.stdout
     ok = bool(sigs) and not harness
-    bad += 0 if ok else 1
-    print("%-10s %s by %s %s" % (name, "caught" if ok else "NOT-CAUGHT", owner, sigs[0] if sigs else ("(harness error)" if harness else "")), flush=True)
+    return name, ok, owner, (sigs[0] if sigs else ("(harness error)" if harness else ""))
+
+
+metas = [mp for mp in sorted(glob.glob(os.path.join(V, "seeded", "*", "meta.json")))
+         if not args or any(os.path.basename(os.path.dirname(mp)).startswith(p) for p in args)]
+bad = 0
+with concurrent.futures.ThreadPoolExecutor(max_workers=jobs) as ex:
+    for name, ok, owner, sig in ex.map(one, metas):
+        bad += 0 if ok else 1
+        print("%-10s %s by %s %s" % (name, "caught" if ok else "NOT-CAUGHT", owner, sig), flush=True)
 print("seeded regression: %d not caught" % bad)
 sys.exit(1 if bad else 0)
